@@ -15,6 +15,7 @@
 From stdpp Require Import gmap list.
 From Coq Require Import NArith.
 From BS Require Import Abs.Parents Abs.ParentsProofs Abs.ParentsCausal.
+From BS Require Import Sync.Types Sync.Model Sync.Observe Sync.Proofs.Hierarchy.
 
 (* Operations by arbitrary peers to arbitrary parents; operations of one and the same peer may follow
    each other at any pace (A -> B -> A included); an operation by a DIFFERENT peer than the previous
@@ -136,6 +137,33 @@ Theorem C05_causal_naive_refuted :
     exists p, ppeers s' p /\ ppar s' p <> last_set tr.
 Proof. exact ParentsCausal.C05_causal_naive_refuted. Qed.
 
+(* The BOOKKEEPING half, on the frame-level model (Sync/Proofs/Hierarchy.v; bevy_hierarchy's add_child /
+   set_parent as mirrored by Model.add_child, tied to the engine by the per-frame correspondence, which
+   compares Parent and Children of every entity): in every state of every run of application
+   operations and frames of any number of peers — all executable orders, all oracles, panicked peers
+   included — every alive child with an alive parent is listed in that parent's Children, every alive
+   entity listed under q has Parent q, no Children list has duplicates (stale entries of plainly
+   despawned entities are tolerated, as in Bevy 0.14). Premise: the script hands out every entity id
+   once (Bevy never re-issues an Entity) and application systems queue no spawn of their own. *)
+Theorem C05_hierarchy_consistent_on_every_run :
+  forall n tr, hier_conforming n tr ->
+    forall p pr, grun (init_global n) tr !! p = Some pr -> hier_ok pr.
+Proof. exact Hierarchy.grun_hier_ok. Qed.
+
+Theorem C05_hierarchy_invariant_of_a_frame :
+  forall pr o, hier_inv pr -> hier_inv (frame pr o).
+Proof. exact Hierarchy.frame_hier_inv. Qed.
+
+(* "a re-parented child is listed exactly once among the new parent's children and under no other
+   parent": after ANY re-parenting of an alive c under an alive p <> c — by the application, or applied
+   from the network on a client or on the host — from a consistent state *)
+Theorem C05_reparented_child_listed_exactly_once :
+  forall pr c p pr',
+    hier_ok pr -> alive pr c = true -> alive pr p = true -> c <> p ->
+    reparent_op pr c p pr' ->
+    hier_ok pr' /\ listed_once pr' c p.
+Proof. exact Hierarchy.reparent_listed_once. Qed.
+
 (* outside the property: two writers that are NOT separated by a drain may end quiescent and disagree *)
 Theorem C05_conflicting_writers_may_diverge :
   exists tr s, prun (pinit 1) tr = Some s /\ pquiescent s /\
@@ -159,3 +187,6 @@ Print Assumptions C05_causal_terminates.
 Print Assumptions C05_drain_separated_is_causal.
 Print Assumptions C05_causal_premise_means_seen.
 Print Assumptions C05_causal_naive_refuted.
+Print Assumptions C05_hierarchy_consistent_on_every_run.
+Print Assumptions C05_hierarchy_invariant_of_a_frame.
+Print Assumptions C05_reparented_child_listed_exactly_once.
